@@ -7,6 +7,8 @@
 //         read_image, read_view into a canary-framed view, read_image into any_image<gray8,rgb8,rgba8>, the scanline reader, read_image_info
 //   conv  <fmt> <nat> <dst> <tlx> <tly> <dx> <dy> <file>  nat <img> | conv <img> | ref <img> | cview <img> <canary>
 //         read_image (native type), read_and_convert_image, copy_and_convert_pixels of the native read, read_and_convert_view
+//   skips <fmt> <dst> <pattern> <file>                    img <img> | full ok|err:io | sk <it==end> <row hex>... | sk err:io
+//         the scanline iterator driven by a pattern of d (*it; ++it), D (*it; *it; ++it), s (++it without dereferencing)
 //   small <fmt> <dst> <vw> <vh> <tlx> <tly> <dx> <dy> <file>   ok|err:io <canary>       read_view into a view smaller than the region
 // <img> = <w> <h> <channel bytes hex> | err:io | ub
 #include "../C12/c12.hpp"
@@ -100,6 +102,32 @@ template <typename Tag, typename Img> std::string op_scan(std::string const& pat
         for (; it != end; ++it, ++rows) { unsigned char const* b = *it; scan<Tag>::row(rd, b, gil::num_channels<typename Img::view_t>::value, out); }
         return std::to_string((long)rd._info._width) + " " + std::to_string(rows) + " " + hex(out); }); }
 
+// ---- skips: the scanline iterator driven by a pattern: d = *it; ++it   D = *it; *it; ++it (second dereference reported)   s = ++it (row skipped, never
+// dereferenced; runs of s go through std::advance).  Every dereferenced row is reported (in Img's channel order), then whether it == end().
+template <typename Tag, typename Img> std::string op_skips(std::string const& path, std::string const& pat) {
+    Img img;
+    std::string r = "img " + attempt([&] { gil::read_image(path, img, Tag()); return show(img); });
+    using reader_t = gil::scanline_reader<typename gil::get_read_device<char const*, Tag>::type, Tag>;
+    int const nch = gil::num_channels<typename Img::view_t>::value;
+    // does a plain walk (every row dereferenced) work at all?
+    r += " | full " + attempt([&] { reader_t rd = gil::make_scanline_reader(path.c_str(), Tag()); int rows = 0;
+        for (auto it = rd.begin(), end = rd.end(); it != end; ++it, ++rows) { unsigned char const* b = *it; (void)b; }
+        return std::string("ok"); });
+    r += " | sk " + attempt([&] {
+        reader_t rd = gil::make_scanline_reader(path.c_str(), Tag());
+        auto it = rd.begin(), end = rd.end(); std::string out;
+        for (size_t i = 0; i < pat.size();) {
+            if (pat[i] == 's') { size_t j = i; while (j < pat.size() && pat[j] == 's') ++j;
+                if (j - i > 1) std::advance(it, (long)(j - i)); else ++it;
+                i = j; continue; }
+            unsigned char const* b = *it;
+            for (int rep = 0; rep < (pat[i] == 'D' ? 2 : 1); ++rep) {       // D: the same position dereferenced twice, both rows reported
+                if (rep) b = *it;
+                bytes row; scan<Tag>::row(rd, b, nch, row); out += " " + hex(row); }
+            ++it; ++i; }
+        return std::string(it == end ? "1" : "0") + out; });
+    return r; }
+
 struct any_show { template <typename I> std::string operator()(I const& img) const { return show(img); } };
 
 // ---- paths
@@ -157,6 +185,7 @@ template <typename Tag, typename Img> std::string dispatch(std::vector<std::stri
     if (w[0] == "crop" && w.size() == 8) { spill(path, unhex(w[7])); return op_crop<Tag, Img>(path, I(3), I(4), I(5), I(6)); }
     // paths | pathsA (the suffix only selects the model variant)
     if (w[0].compare(0, 5, "paths") == 0 && w.size() == 4) { spill(path, unhex(w[3])); return op_paths<Tag, Img>(path); }
+    if (w[0] == "skips" && w.size() == 5) { spill(path, unhex(w[4])); return op_skips<Tag, Img>(path, w[3]); }
     if (w[0] == "small" && w.size() == 10) { spill(path, unhex(w[9])); return op_small<Tag, Img>(path, I(3), I(4), I(5), I(6), I(7), I(8)); }
     return "bad-op"; }
 
